@@ -521,6 +521,15 @@ func suiteConvert(tier string, seed uint64, model string) *Report {
 	for i := 0; i < n; i++ {
 		docs = append(docs, genDoc(r))
 	}
+	// every decimal a.bc and a sample of a.bcd, bare and inside containers
+	for a := 0; a <= 20; a++ {
+		for f := 0; f < 100; f++ {
+			docs = append(docs, []byte(fmt.Sprintf("%d.%02d", a, f)))
+		}
+		for f := 0; f < 1000; f += 7 {
+			docs = append(docs, []byte(fmt.Sprintf("[%d.%03d,{\"a\":-%d.%03d}]", a, f, a+1, (f*3)%1000)))
+		}
+	}
 	for _, d := range docs {
 		rep.Evaluations++
 		rep.Count("parse-pair")
